@@ -125,6 +125,8 @@ void cmb_resourceguard_terminate(struct cmb_resourceguard *rgp)
  * Returns whatever signal was received when the process was reactivated.
  * Cannot be called from the main process, will fire an assert if attempted.
  */
+static void wakeup_event_resource(void *vp, void *arg);
+
 int64_t cmb_resourceguard_wait(struct cmb_resourceguard *rgp,
                                cmb_resourceguard_demand_func *demand,
                                const void *ctx)
@@ -155,7 +157,16 @@ int64_t cmb_resourceguard_wait(struct cmb_resourceguard *rgp,
 
     /* Back here, possibly much later. Return the signal that resumed us. */
     if (sig != CMB_PROCESS_SUCCESS) {
-        cmi_hashheap_cancel((struct cmi_hashheap *)rgp, key);
+        if (!cmi_hashheap_cancel((struct cmi_hashheap *)rgp, key)) {
+            /*
+             * Not in the queue anymore. We may have been granted the resource
+             * in this same instant, with the wakeup still pending. Withdraw
+             * it so it cannot resume us later, and pass the grant on.
+             */
+            (void)cmb_event_pattern_cancel(wakeup_event_resource, pp,
+                                           CMB_ANY_OBJECT);
+            (void)cmb_resourceguard_signal(rgp);
+        }
     }
 
     cmb_assert_debug(!cmi_hashheap_is_enqueued((struct cmi_hashheap *)rgp, key));
